@@ -191,6 +191,45 @@ func init() {
 		for _, s := range []string{"wait", "waiter", "block", "input", "manual", "command", "Wait", " wait", "wait ", "trigger", "group", "", "script", "WAIT", "blocks", "~", "null", "true", "waitér"} {
 			c15scalar(s)
 		}
+		// the key set that decides the kind may come through YAML merges: a chain of mappings, each merging the
+		// previous one and overriding `type` (before or after its own <<), merged into the step
+		types3 := []string{"command", "wait", "block", "trigger", "group"}
+		kindOf := map[string]string{"command": "CommandStep", "wait": "WaitStep", "block": "InputStep", "trigger": "TriggerStep", "group": "GroupStep"}
+		for i := 0; i < 60; i++ {
+			depth := 2 + rng.Intn(2)
+			var b strings.Builder
+			want := ""
+			for lv := 0; lv < depth; lv++ {
+				var parts []string
+				if lv == 0 || rng.Chance(60) {
+					want = sx.Pick(rng, types3)
+					parts = append(parts, "type: "+want)
+				}
+				parts = append(parts, fmt.Sprintf("x%d: 1", lv))
+				if lv > 0 {
+					pos := rng.Intn(len(parts) + 1)
+					parts = append(parts[:pos], append([]string{fmt.Sprintf("<<: *l%d", lv-1)}, parts[pos:]...)...)
+				}
+				fmt.Fprintf(&b, "l%d: &l%d {%s}\n", lv, lv, strings.Join(parts, ", "))
+			}
+			fmt.Fprintf(&b, "steps:\n- {<<: *l%d, label: L}\n", depth-1)
+			text := b.String()
+			c := sx.L(sx.A("merge-ladder"), sx.A(text))
+			p, err := pipeline.Parse(strings.NewReader(text))
+			if err != nil && !warning.Is(err) {
+				oracleFail("C15", "ladder-hard-error", c, err.Error())
+				continue
+			}
+			if len(p.Steps) != 1 {
+				oracleFail("C15", "ladder-steps", c, fmt.Sprintf("%d steps", len(p.Steps)))
+				continue
+			}
+			if got := c15kindOf(p.Steps[0], err); got != kindOf[want] {
+				oracleFail("C15", "kind-merge-ladder", c, fmt.Sprintf("the merged step has type %s (the nearest level that writes it), yet it became %s", want, got))
+				continue
+			}
+			stat("C15", "merge-ladders")
+		}
 		// a group whose children are of every kind, incl. unknown ones: the group stays a group
 		for _, child := range []string{`"wait"`, `{"command":"x"}`, `{"mystery":1}`, `"frobnicate"`, `{"type":"future"}`} {
 			js := `{"group":"g","steps":[` + child + `]}`
